@@ -245,7 +245,10 @@ def tasks(tier, seed):
             add("abs:%s:%s" % ("+".join(sub), st if st == "STRICT" else "REQ=" + "+".join(st)), "h_abs",
                 {"subset": sub, "strict": st})
     for j, fmt in enumerate(FMT_CASES):
-        for st in (["STRICT"] + REQ if not quick else ["STRICT", REQ[(seed + j) % len(REQ)]]):
+        sts = ["STRICT"] + REQ if not quick else ["STRICT", REQ[(seed + j) % len(REQ)]]
+        if quick and "%d" in fmt and not any(x in fmt for x in ("%m", "%b", "%B")) and ["day"] in REQ and ["day"] not in sts:
+            sts.append(["day"])        # a stated day next to a completed month: the day must not depend on the clock
+        for st in sts:
             add("fmt:%s:%s" % (fmt, st if st == "STRICT" else "REQ=" + "+".join(st)), "h_fmt", {"fmt": fmt, "strict": st})
     for kind in ("timestamp", "nospace"):
         for st in (["STRICT"] + REQ if not quick else ["STRICT", REQ[seed % len(REQ)]]):
